@@ -101,9 +101,11 @@ const (
 	honestAgentPrefix     = "honest/"
 	observerAgent         = "observer/1"
 	maxPushesPerRun       = 4 // documented push rate limit: burst 10 per /24
-	maxTriggerCreation    = 70
-	maxTriggerDuringPhase = 40
+	maxTriggerCreation    = 45 // a whole connection (handshake + identify) is 20-35 I/O calls on the observer's socket
+	maxTriggerDuringPhase = 20 // a push is 8-15
 )
+
+var dbgReasons = os.Getenv("C13_DEBUG") != ""
 
 // ---- plan ---------------------------------------------------------------------------------
 
@@ -202,7 +204,8 @@ type plan struct {
 	conns     []connPlan
 	overlap   bool // do not wait for quiescence between the connection phase and the action phase
 	acts      []actPlan
-	longAdv   bool // 2 h instead of 30 min
+	longAdv   bool // 2 h instead of RecentlyConnectedAddrTTL + 2 min
+	trim      bool // close all but the first connection (at quiescence) before the long advance
 	finalObs  bool // final closes by the observer
 }
 
@@ -247,10 +250,10 @@ func drawPlan(g simrt.Gen) (*plan, *world) {
 	}
 	p.overlap = g.Chance(1, 3)
 	nact := g.Weighted(1, 3, 4, 3, 2)
-	pushes := 0
+	pushes, lastPushConn := 0, -1
 	for i := 0; i < nact; i++ {
 		var a actPlan
-		a.kind = g.Weighted(5, 4, 2)
+		a.kind = g.Weighted(6, 4, 2)
 		if a.kind == actPush && pushes >= maxPushesPerRun {
 			a.kind = actClose
 		}
@@ -258,12 +261,17 @@ func drawPlan(g simrt.Gen) (*plan, *world) {
 		a.byObs = g.Bool()
 		if a.kind == actPush {
 			pushes++
+			lastPushConn = a.conn
 			a.send = drawSend(g, w, &midx, true)
 		}
 		if g.Weighted(1, 3) == 1 {
 			a.trig.io = true
 			a.trig.conn = g.Int(nconn)
-			a.trig.creation = a.kind != actPush && g.Chance(1, 3)
+			if a.kind != actPush && lastPushConn >= 0 && !g.Chance(1, 3) {
+				// position the close by the traffic of the connection the previous push travels on
+				a.trig.conn = lastPushConn
+			}
+			a.trig.creation = a.kind != actPush && lastPushConn < 0 && g.Chance(1, 2)
 			if a.trig.creation {
 				a.trig.j = 1 + g.Int(maxTriggerCreation)
 			} else {
@@ -273,7 +281,8 @@ func drawPlan(g simrt.Gen) (*plan, *world) {
 		a.yields = g.Weighted(4, 1, 1, 1) * g.Range(1, 20)
 		p.acts = append(p.acts, a)
 	}
-	p.longAdv = g.Chance(1, 4)
+	p.longAdv = g.Chance(1, 8)
+	p.trim = g.Bool()
 	p.finalObs = g.Bool()
 	return p, w
 }
@@ -340,9 +349,10 @@ type sendRec struct {
 }
 
 type trigger struct {
-	at   int
-	fire func()
-	done bool
+	at    int
+	fire  func()
+	done  bool
+	fired bool
 }
 
 type rawPair struct {
@@ -665,7 +675,7 @@ func run(t *testing.T, tape *simrt.Tape) *common.Outcome {
 	o := &common.Outcome{}
 	pl, w := drawPlan(g)
 	x := &exec{o: o, w: w, pl: pl, completed: map[string]int{}}
-	o.Logf("security=%s link=%d latency=%v bigProtos=%v byzIP=%s pre=%d overlap=%v longAdvance=%v finalByObserver=%v", pl.sec, pl.link, pl.latency, pl.bigProtos, pl.byzIP, pl.pre, pl.overlap, pl.longAdv, pl.finalObs)
+	o.Logf("security=%s link=%d latency=%v bigProtos=%v byzIP=%s pre=%d overlap=%v longAdvance=%v trim=%v finalByObserver=%v", pl.sec, pl.link, pl.latency, pl.bigProtos, pl.byzIP, pl.pre, pl.overlap, pl.longAdv, pl.trim, pl.finalObs)
 	for i, c := range pl.conns {
 		dir := "byz dials"
 		if c.outbound {
@@ -738,7 +748,7 @@ func (x *exec) main(tape *simrt.Tape) {
 		obsEnd.SetOnCall(func(call int, _ bool) {
 			for _, tr := range rp.trig {
 				if !tr.done && call >= tr.at {
-					tr.done = true
+					tr.done, tr.fired = true, true
 					tr.fire()
 				}
 			}
@@ -1036,16 +1046,23 @@ func (x *exec) main(tape *simrt.Tape) {
 		}
 	}
 	firstKept := !x.conns[0].failed && !x.conns[0].closed
-	adv := 2 * peerstore.RecentlyConnectedAddrTTL
+	// Everything that was downgraded to a finite lifetime (TempAddrTTL, RecentlyConnectedAddrTTL) is gone after this:
+	adv := peerstore.RecentlyConnectedAddrTTL + 2*time.Minute
 	if pl.longAdv {
 		adv = 2 * time.Hour
 	}
-	if os.Getenv("C13_NOADV") != "" {
-		x.summarise()
-		return
-	}
 	if open > 0 {
 		s1 := snapPeer(O.PS, w.byz.id)
+		if pl.trim && firstKept {
+			// non-last disconnects at quiescence: nothing may be downgraded
+			for _, c := range x.conns[1:] {
+				if !c.failed && !c.closed {
+					x.closeConn(c, pl.finalObs, "trim before the advance")
+					settle(time.Second)
+					open--
+				}
+			}
+		}
 		settle(adv)
 		if firstKept && len(O.Swarm.ConnsToPeer(w.byz.id)) > 0 {
 			o.Probe("survive-checked")
@@ -1220,6 +1237,9 @@ func (x *exec) checkEvents() {
 			}
 			if f.Peer == w.byz.id {
 				o.Probe("identify-failed-event")
+				if dbgReasons {
+					o.Probe("DBG-reason-" + fmt.Sprintf("%.40s", fmt.Sprint(f.Reason)))
+				}
 			}
 			continue
 		}
@@ -1269,21 +1289,9 @@ func (x *exec) checkEvents() {
 // summarise derives probes, signature and the non-trivial flag.
 func (x *exec) summarise() {
 	o := x.o
+	byz := x.w.byz.id
 	var sig []string
 	adversarialConsumed := false
-	lastDisc := uint64(0)
-	allDisc := true
-	for _, oc := range x.obsConns {
-		if oc.c.RemotePeer() != x.w.byz.id {
-			continue
-		}
-		if oc.disconnected == 0 {
-			allDisc = false
-		} else if oc.disconnected > lastDisc {
-			lastDisc = oc.disconnected
-		}
-	}
-	_ = allDisc
 	for _, s := range x.sends {
 		kind := "resp"
 		if s.push {
@@ -1300,55 +1308,70 @@ func (x *exec) summarise() {
 			}
 		}
 	}
+	raced := false
 	for _, e := range x.events {
-		if c := e.completed; c != nil && c.Peer == x.w.byz.id {
-			// consumed although every connection the observer announced before had already been reported closed
-			open := 0
+		c := e.completed
+		if c == nil || c.Peer != byz {
+			continue
+		}
+		// consumed although every connection the observer had announced was already reported closed
+		open := 0
+		for _, oc := range x.obsConns {
+			if oc.c.RemotePeer() == byz && oc.connected < e.stamp && (oc.disconnected == 0 || oc.disconnected > e.stamp) {
+				open++
+			}
+		}
+		if open == 0 {
+			o.Probe("consumed-while-disconnected")
+			raced = true
+		}
+		for _, oc := range x.obsConns {
+			if oc.c == c.Conn && oc.disconnected != 0 && oc.disconnected < e.stamp {
+				o.Probe("consumed-on-closed-connection")
+				raced = true
+			}
+		}
+		for _, s := range x.sends {
+			if s.msg.tag != tagOf(c.AgentVersion) {
+				continue
+			}
 			for _, oc := range x.obsConns {
-				if oc.c.RemotePeer() == x.w.byz.id && oc.connected < e.stamp && (oc.disconnected == 0 || oc.disconnected > e.stamp) {
-					open++
-				}
-			}
-			if open == 0 {
-				o.Probe("consumed-while-disconnected")
-			}
-			for _, s := range x.sends {
-				if s.msg.tag != tagOf(c.AgentVersion) {
-					continue
-				}
-				for _, oc := range x.obsConns {
-					if oc.c == c.Conn && oc.disconnected != 0 && oc.disconnected < e.stamp {
-						o.Probe("consumed-on-closed-connection")
-					}
-					if oc.c.RemotePeer() == x.w.byz.id && oc.disconnected > s.start && oc.disconnected < e.stamp {
-						o.Probe("disconnect-between-send-and-consumed")
-					}
+				if oc.c.RemotePeer() == byz && oc.disconnected > s.start && oc.disconnected < e.stamp {
+					o.Probe("disconnect-between-send-and-consumed")
+					raced = true
 				}
 			}
 		}
 	}
-	racedClose := false
 	for _, oc := range x.obsConns {
-		if oc.c.RemotePeer() != x.w.byz.id {
+		if oc.c.RemotePeer() != byz {
 			continue
-		}
-		if oc.waitTook > 0 {
-			o.Probe("identify-wait-blocked-then-released")
 		}
 		if oc.waitTook >= identifyTimeout {
 			o.Probe("identify-wait-released-by-timeout")
 		}
-	}
-	for k, a := range x.pl.acts {
-		if a.kind != actPush && a.trig.io {
-			for _, rp := range x.raws {
-				_ = rp
+		// the connection was reported closed while its identify-wait was still pending
+		if oc.disconnected != 0 {
+			for _, e := range x.events {
+				if f := e.failed; f != nil && f.Peer == byz && e.stamp > oc.disconnected && oc.waitTook < identifyTimeout {
+					o.Probe("identify-failed-after-disconnect")
+					break
+				}
 			}
-			_ = k
-			racedClose = true
 		}
 	}
+	triggered := 0
+	for _, rp := range x.raws {
+		for _, tr := range rp.trig {
+			if tr.fired {
+				triggered++
+			}
+		}
+	}
+	if triggered > 0 {
+		o.Probe("io-positioned-action-fired")
+	}
 	sort.Strings(sig)
-	o.Sig = fmt.Sprintf("%s|%d|%v|conns=%d|acts=%d/%d|%s", x.pl.sec, x.pl.link, x.pl.bigProtos, len(x.conns), x.fired, len(x.pl.acts), strings.Join(sig, ";"))
-	o.Nontrivial = adversarialConsumed || (racedClose && x.fired > 0)
+	o.Sig = fmt.Sprintf("%s|%d|%v|conns=%d|acts=%d/%d|trig=%d|%s", x.pl.sec, x.pl.link, x.pl.bigProtos, len(x.conns), x.fired, len(x.pl.acts), triggered, strings.Join(sig, ";"))
+	o.Nontrivial = adversarialConsumed || raced || triggered > 0
 }
